@@ -8,7 +8,7 @@ set_option linter.unusedVariables false
 namespace SgVerif.C10
 
 theorem simp_emit (a : Nat) (t : St) (o : Obs) : Simp a t (t.emit o) :=
-  ⟨ext_emit t o, rfl, fun _ => rfl, fun _ => StatLe.refl _, fun _ h => h, fun q => q⟩
+  ⟨ext_emit t o, rfl, fun _ => rfl, fun _ => StatLe.refl _, fun _ h => h⟩
 
 theorem ext_finish (t : St) (k : Nat) : Ext t (finish t k) := (finish_ok t k).ext
 theorem ext_cancel (t : St) (k : Nat) : Ext t (cancel t k) := (simp_cancel 0 t k).ext
@@ -57,22 +57,12 @@ theorem res_finish {a k : Nat} {r : Ans} (t : St) (k0 : Nat) (p : PendS t a k r)
       · exact Or.inr (Or.inr (Or.inl ⟨k0, r', hk, h⟩))
     · obtain ⟨m1, m2⟩ := f.miss a hm
       have hst : StatLe (t.acts k) ((finish t k0).acts k) := StatLe.of_eq (f.stat k (Ne.symm hk))
-      refine Or.inr (Or.inr (Or.inr ⟨?_, m2 k (Ne.symm hk) p.reg, hit_mono hst f.ext.hostOn p.hit, ?_, ?_, ?_⟩))
+      refine Or.inr (Or.inr (Or.inr ⟨?_, m2 k (Ne.symm hk) p.reg, hit_mono hst f.ext.hostOn p.hit, ?_, ?_⟩))
       · rw [answerable_iff_core, m1, ← answerable_iff_core]; exact p.ans
       · rcases finish_fq_cases t k0 with e | e
         · rw [e]; exact List.mem_filter.mpr ⟨p.inq, by simpa using Ne.symm hk⟩
         · rw [e]; exact p.inq
       · rw [hst.1]; exact p.spec
-      · intro j hj
-        have hj0 := f.fqsub j hj
-        by_cases hjk : j = k0
-        · subst hjk
-          exfalso
-          rw [finish_fq t j (p.qok j hj0)] at hj
-          simpa using (List.mem_filter.mp hj).2
-        · have := f.stat j hjk
-          simp only [statOf, Prod.mk.injEq] at this
-          rw [this.2.2.2.2]; exact p.qok j hj0
 
 /-! chaining -/
 theorem res_simp_then {a k : Nat} {r : Ans} {t t1 t2 : St} (h1 : Simp a t t1) (e2 : Ext t1 t2)
@@ -189,6 +179,8 @@ theorem res_killOn {a k : Nat} {r : Ans} (h : Nat) (t : St) (b : Nat) (hoff : t.
   · exact Or.inr (Or.inr (Or.inr p))
 
 /-! `handle_ended_actions` -/
+theorem ext_pop (t : St) (rest : List Nat) : Ext t ({ t with failedQ := rest } : St) := ⟨List.prefix_refl _, id, rfl⟩
+
 theorem ext_handleEnded (n : Nat) : ∀ t, Ext t (handleEnded n t) := by
   induction n with
   | zero => intro t; exact Ext.refl t
@@ -197,7 +189,7 @@ theorem ext_handleEnded (n : Nat) : ∀ t, Ext t (handleEnded n t) := by
     unfold handleEnded
     split
     · exact Ext.refl t
-    · exact (ext_finish _ _).trans (ih _)
+    · exact ((ext_pop t _).trans (ext_finish _ _)).trans (ih _)
 
 /-- the final outcome: answered (by `k` with `r`, or by another activity of its wait_any) or an assertion fired -/
 def DoneR (t t' : St) (a k : Nat) (r : Ans) : Prop :=
@@ -220,22 +212,37 @@ theorem done_handleEnded {a k : Nat} {r : Ans} (n : Nat) :
     | nil => have := p.inq; simp_all
     | cons k0 rest =>
       simp only []
-      have hk0 : k0 ∈ t.failedQ := by rw [hq]; simp
-      have hfq : (finish t k0).failedQ.length ≤ n := by
-        rw [finish_fq t k0 (p.qok k0 hk0), hq]
-        simp only [ne_eq, decide_not, List.filter_cons, decide_true, Bool.not_true, Bool.false_eq_true, ↓reduceIte]
-        have := filter_ne_length_le rest k0
-        simp only [ne_eq, decide_not] at this
-        simp only [hq, List.length_cons] at hl
-        omega
-      rcases res_finish t k0 p with h | h | ⟨k', r', hk, h⟩ | h
+      -- `extract_failed_action`: the head leaves the set, then `finish` runs on it
+      have hfq : (finish ({ t with failedQ := rest } : St) k0).failedQ.length ≤ n := by
+        have hr : rest.length ≤ n := by simp only [hq, List.length_cons] at hl; omega
+        rcases finish_fq_cases ({ t with failedQ := rest } : St) k0 with e | e
+        · rw [e]
+          have := filter_ne_length_le rest k0
+          simp only [ne_eq, decide_not] at this ⊢
+          omega
+        · rw [e]; exact hr
+      have e0 : Ext t ({ t with failedQ := rest } : St) := ext_pop t rest
+      have hres : Res ({ t with failedQ := rest } : St) (finish ({ t with failedQ := rest } : St) k0) a k r := by
+        by_cases hk : k0 = k
+        · subst hk
+          rcases finish_hit ({ t with failedQ := rest } : St) k0 p.hit a p.ans p.reg with h | h
+          · exact Or.inl h
+          · rw [p.spec]; exact Or.inr (Or.inl h)
+        · have hin : k ∈ rest := by
+            have := p.inq
+            rw [hq] at this
+            rcases List.mem_cons.mp this with e | e
+            · exact absurd e.symm hk
+            · exact e
+          exact res_finish _ k0 ⟨p.ans, p.reg, p.hit, hin, p.spec⟩
+      rcases hres with h | h | ⟨k', r', hk, h⟩ | h
       · exact Or.inl ((ext_handleEnded n _).crashed h)
       · exact Or.inr (Or.inl (newIn_of_ext_right _ (ext_handleEnded n _) h))
       · exact Or.inr (Or.inr ⟨k', r', hk, newIn_of_ext_right _ (ext_handleEnded n _) h⟩)
       · rcases ih _ h hfq with h' | h' | ⟨k', r', hk, h'⟩
         · exact Or.inl h'
-        · exact Or.inr (Or.inl (newIn_of_ext_left _ (ext_finish t k0) h'))
-        · exact Or.inr (Or.inr ⟨k', r', hk, newIn_of_ext_left _ (ext_finish t k0) h'⟩)
+        · exact Or.inr (Or.inl (newIn_of_ext_left _ (e0.trans (ext_finish _ k0)) h'))
+        · exact Or.inr (Or.inr ⟨k', r', hk, newIn_of_ext_left _ (e0.trans (ext_finish _ k0)) h'⟩)
 
 theorem done_of_res {a k : Nat} {r : Ans} {t t1 : St} (n : Nat) (e1 : Ext t t1) (h1 : Res t t1 a k r)
     (hl : t1.failedQ.length ≤ n) : DoneR t (handleEnded n t1) a k r := by
